@@ -1,7 +1,7 @@
 (* C12 property theorems.  Only statements closed by [exact]; each followed by Print Assumptions.
    All are about the definitions of C12/Model.v that the correspondence harness (C12/Harness.v) runs.
    wf r = the record's field names are pairwise distinct (what every reader delivers). *)
-From Miller Require Import Base.Bytes Base.Record C12.Model C12.Proofs C12.ProofsStream C12.Regex C12.RegexLaws.
+From Miller Require Import Base.Bytes Base.Record C12.Model C12.Proofs C12.ProofsStream C12.Regex C12.RegexLaws C12.Model2 C12.ProofsFields.
 From Coq Require Import Permutation.
 
 (* ---- cut: -f keeps exactly the named fields in record order (definitional), -x -f exactly the others, and the two
@@ -333,4 +333,65 @@ Example C12_nonvacuous_regex :
   /\ rename_r [(false, Seq Bol (Chr "x"), [inl (B "w")])] false r
      = [(B "w1", B "a"); (B "y1", B "b"); (B "w2", B "c"); (B "z", B "d"); (B "y2", B "e")]
   /\ filter (rr_bystander (sub1 false (Seq Bol (Chr "x")) [inl (B "w")]) r) r = [(B "y1", B "b"); (B "z", B "d"); (B "y2", B "e")].
+Proof. vm_compute. repeat split; reflexivity. Qed.
+
+(* ================================================================== verbs that rewrite fields one by one
+   sub / gsub / ssub (-f, -a), case -v, sec2gmt, fill-empty are  map_values accept fv : pe.Value = fv(pe.Value) on the
+   accepted fields.  For EVERY acceptor and EVERY value function (regex replacement, Unicode case mapping, time formatting,
+   the type inference that decides whether a value is a string are third party): field names and positions are kept, a
+   field that is not accepted is untouched, an accepted one holds fv of its value; bystanders keep name, value, order *)
+Theorem C12_value_rewriting_verbs_change_only_accepted_values : forall (accept : bytes -> bool) (fv : bytes -> bytes) r,
+  keys (map_values accept fv r) = keys r
+  /\ Forall2 (fun a b => fst b = fst a /\ (accept (fst a) = false -> b = a) /\ (accept (fst a) = true -> snd b = fv (snd a)))
+             r (map_values accept fv r)
+  /\ filter (fun kv => negb (accept (fst kv))) (map_values accept fv r) = filter (fun kv => negb (accept (fst kv))) r
+  /\ (forall k, get k (map_values accept fv r) = if accept k then option_map fv (get k r) else get k r).
+Proof.
+  exact (fun accept fv r => conj (map_values_keys accept fv r) (conj (map_values_pointwise accept fv r)
+        (conj (map_values_bystanders accept fv r) (fun k => map_values_get accept fv k r)))).
+Qed.
+Print Assumptions C12_value_rewriting_verbs_change_only_accepted_values.
+
+(* inverse pairs of value rewriting: if g undoes f on the accepted values of the record, the second verb undoes the first
+   (ssub a,b then b,a when b does not occur; case -u then -l on lower-case values); a value function that fixes the accepted
+   values leaves the record alone *)
+Theorem C12_value_rewriting_inverse : forall accept f g r,
+  ((forall kv, In kv r -> accept (fst kv) = true -> g (f (snd kv)) = snd kv) -> map_values accept g (map_values accept f r) = r)
+  /\ ((forall kv, In kv r -> accept (fst kv) = true -> f (snd kv) = snd kv) -> map_values accept f r = r).
+Proof. exact (fun accept f g r => conj (map_values_inverse accept f g r) (map_values_fixed accept f r)). Qed.
+Print Assumptions C12_value_rewriting_inverse.
+
+(* case -k / -k -v (and unspace) build a new record with PutReference: when the new names are pairwise distinct every
+   field stays in place, accepted fields renamed (and re-valued), the others untouched *)
+Theorem C12_key_rewriting_verbs_without_collision : forall accept fk fv r,
+  NoDup (keys (map (rekey accept fk fv) r)) ->
+  rebuild accept fk fv r = map (rekey accept fk fv) r
+  /\ filter (fun kv => negb (accept (fst kv))) r
+     = map snd (filter (fun p => negb (accept (fst (fst p)))) (combine r (rebuild accept fk fv r))).
+Proof. exact (fun accept fk fv r H => conj (rebuild_no_collision accept fk fv r H) (rebuild_bystanders accept fk fv r H)). Qed.
+Print Assumptions C12_key_rewriting_verbs_without_collision.
+
+(* fill-down -f [-a]: one record out per record in; fields that are not named keep name, value and relative order; a stream
+   in which every named field (--all: every field) is present and, without -a, non-empty passes unchanged *)
+Theorem C12_fill_down_bystanders : forall a fs rs,
+  List.length (fill_down a false fs rs) = List.length rs
+  /\ map (filter (fun kv => negb (mem (fst kv) fs))) (fill_down a false fs rs) = map (filter (fun kv => negb (mem (fst kv) fs))) rs.
+Proof. exact fill_down_bystanders. Qed.
+Print Assumptions C12_fill_down_bystanders.
+
+Theorem C12_fill_down_complete_records_unchanged : forall (a all : bool) (fs : list bytes) (rs : list record),
+  (forall r f, In r rs -> In f (if all then keys r else fs) -> fd_present a (get f r) = true) -> fill_down a all fs rs = rs.
+Proof. exact fill_down_complete_records. Qed.
+Print Assumptions C12_fill_down_complete_records_unchanged.
+
+Example C12_nonvacuous_fields :
+  let rs := [[(B "a", B "1"); (B "b", B "x")]; [(B "a", B ""); (B "c", B "y")]; [(B "c", B "z")]] in
+  fill_down false false [B "a"; B "b"] rs
+  = [[(B "a", B "1"); (B "b", B "x")]; [(B "a", B "1"); (B "c", B "y"); (B "b", B "x")]; [(B "c", B "z"); (B "a", B "1"); (B "b", B "x")]]
+  /\ fill_down true false [B "a"] rs = [[(B "a", B "1"); (B "b", B "x")]; [(B "a", B ""); (B "c", B "y")]; [(B "c", B "z"); (B "a", B "")]]
+  /\ map (map_values (accept_names [B "b"; B "c"]) (ssub1 (B "y") (B "yy"))) rs
+     = [[(B "a", B "1"); (B "b", B "x")]; [(B "a", B ""); (B "c", B "yy")]; [(B "c", B "z")]]
+  /\ gssub (B "ab") (B "c") (B "xababyab") = B "xccyc"
+  /\ rebuild accept_all (map Regex.upper) (fun v => v) [(B "a", B "1"); (B "b", B "2")] = [(B "A", B "1"); (B "B", B "2")]
+  /\ rebuild accept_all (map Regex.upper) (fun v => v) [(B "a", B "1"); (B "A", B "2")] = [(B "A", B "2")].
 Proof. vm_compute. repeat split; reflexivity. Qed.
